@@ -348,6 +348,7 @@ pub fn check(plans: &[Plan], recs: &[RunRec]) -> Outcome {
     let (plan, rec) = (&plans[0], &recs[0]);
     let mut out = Outcome::default();
     common_stats(plan, rec, &mut out.stats);
+    super::check_input_blocked(rec, &mut out);
     let h = history(rec);
     for (tid, msg) in &h.panics {
         if *tid == 0 {
